@@ -20,9 +20,53 @@ CASES = [
     ('validateTypedInitializer.array_slot_accepts_same_array_type', 'B b = new B(); int[] arr = b;', False),
     # argument / assignment sites compare primitive tags themselves (not under contract): reported under their own labels
     ('site.argument.primitive_parameter_rejects_class_value', 'B b = new B(); takesInt(b);', False),
-    ('site.assignment.primitive_variable_rejects_class_value', 'B b = new B(); int x = 0; x = b;', False),
+    ('assignment_statement.accepted_value_has_the_declared_type', 'B b = new B(); int x = 0; x = b;', False),
     ('isAssignableType.class_expected_needs_same_class_or_subclass', 'B b = new B(); takesA(b);', False),
     ('isAssignableType.class_expected_needs_same_class_or_subclass', 'Sub s = new Sub(); takesA(s);', True),
+]
+HOLDER = ('class H { public int n; public A a; public final int fx; public static int sn; private int secret;\n'
+          '  public constructor() -> H { this.n = 0; this.a = new A(); this.fx = 1; this.secret = 7; return this; }\n  %s\n}\n')
+# whole programs: (label, program, accepted?) - one per rule site (the visitor methods under contract)
+FULL = [
+    ('return.accepted_value_has_the_declared_type', PRE + 'function f() -> int { B b = new B(); return b; }\nfunction main() -> void { echo(f()); }\n', False),
+    ('return.accepted_value_has_the_declared_type', PRE + 'function f() -> A { return new B(); }\nfunction main() -> void { A a = f(); echo(1); }\n', False),
+    ('return.accepted_value_has_the_declared_type', PRE + 'function f() -> int { return 1.5f; }\nfunction main() -> void { echo(f()); }\n', False),
+    ('return.accepted_value_has_the_declared_type', PRE + 'function f() -> A { return new Sub(); }\nfunction g() -> long { return 1; }\nfunction main() -> void { A a = f(); echo(g()); }\n', True),
+    ('return.accepted_value_has_the_declared_type', PRE + 'function f() -> int { return null; }\nfunction main() -> void { echo(f()); }\n', False),
+    ('return.value_in_void_function_rejected', PRE + 'function f() -> void { return 1; }\nfunction main() -> void { f(); }\n', False),
+    ('return.bare_return_in_non_void_function_rejected', PRE + 'function f() -> int { return; }\nfunction main() -> void { echo(f()); }\n', False),
+    ('return.bare_return_in_void_function_accepted', PRE + 'function f() -> void { return; }\nfunction main() -> void { f(); echo(1); }\n', True),
+    ('assignment_statement.accepted_value_has_the_declared_type', PRE + 'function main() -> void { B b = new B(); int x = 0; x = b; echo(x); }\n', False),
+    ('assignment_statement.accepted_value_has_the_declared_type', PRE + 'function main() -> void { int[] arr = {1,2}; int x = 0; x = arr; echo(x); }\n', False),
+    ('assignment_statement.accepted_value_has_the_declared_type', PRE + 'function main() -> void { A a = new A(); a = new B(); echo(1); }\n', False),
+    ('assignment_statement.accepted_value_has_the_declared_type', PRE + 'function main() -> void { A a = new A(); a = new Sub(); a = null; long l = 0; l = 3; echo(l); }\n', True),
+    ('assignment_statement.accepted_value_has_the_declared_type', PRE + 'function main() -> void { int x = 0; x = null; echo(x); }\n', False),
+    ('assignment_expression.accepted_value_has_the_declared_type', PRE + 'function main() -> void { B b = new B(); int x = 0; for (int i = 0; i < 1; x = b) { i = i + 1; } echo(x); }\n', False),
+    ('assignment_expression.accepted_value_has_the_declared_type', PRE + 'function main() -> void { A a = new A(); int y = 0; for (int i = 0; i < 1; a = new B()) { i = i + 1; } echo(y); }\n', False),
+    ('assignment_expression.accepted_value_has_the_declared_type', PRE + 'function main() -> void { int x = 0; long y = 0; y = (x = 2); A a = new A(); for (int i = 0; i < 1; a = new Sub()) { i = i + 1; } echo(y); }\n', True),
+    ('assignment_expression.final_variable_never_assigned', PRE + 'function main() -> void { final int x = 1; int y = 0; y = (x = 2); echo(y); }\n', False),
+    ('assignment_expression.accepted_field_value_has_the_declared_type', PRE + HOLDER % 'public function set(B b) -> void { for (int i = 0; i < 1; n = b) { i = i + 1; } }' + 'function main() -> void { H h = new H(); h.set(new B()); echo(1); }\n', False),
+    ('assignment_expression.accepted_field_value_has_the_declared_type', PRE + HOLDER % 'public function set(B b) -> void { for (int i = 0; i < 1; a = b) { i = i + 1; } }' + 'function main() -> void { H h = new H(); h.set(new B()); echo(1); }\n', False),
+    ('assignment_expression.accepted_field_value_has_the_declared_type', PRE + HOLDER % 'public function set(Sub s) -> void { for (int i = 0; i < 1; a = s) { i = i + 1; } }' + 'function main() -> void { H h = new H(); h.set(new Sub()); echo(1); }\n', True),
+    ('assignment_statement.final_variable_never_assigned', PRE + 'function main() -> void { final int x = 1; x = 2; echo(x); }\n', False),
+    ('assignment_statement.accepted_field_value_has_the_declared_type', PRE + HOLDER % 'public function set(B b) -> void { n = b; }' + 'function main() -> void { H h = new H(); h.set(new B()); echo(1); }\n', False),
+    ('assignment_statement.accepted_field_value_has_the_declared_type', PRE + HOLDER % 'public function set(B b) -> void { a = b; }' + 'function main() -> void { H h = new H(); h.set(new B()); echo(1); }\n', False),
+    ('assignment_statement.accepted_field_value_has_the_declared_type', PRE + HOLDER % 'public function set(Sub s) -> void { a = s; n = 4; }' + 'function main() -> void { H h = new H(); h.set(new Sub()); echo(h.n); }\n', True),
+    ('member_assignment.accepted_value_has_the_declared_type', PRE + HOLDER % '' + 'function main() -> void { H h = new H(); h.n = new B(); echo(1); }\n', False),
+    ('member_assignment.accepted_value_has_the_declared_type', PRE + HOLDER % '' + 'function main() -> void { H h = new H(); h.a = new B(); echo(1); }\n', False),
+    ('member_assignment.accepted_value_has_the_declared_type', PRE + HOLDER % '' + 'function main() -> void { H h = new H(); h.a = new Sub(); h.a = null; h.n = 5; echo(h.n); }\n', True),
+    ('member_assignment.accepted_value_has_the_declared_type', PRE + HOLDER % '' + 'function main() -> void { H h = new H(); h.n = null; echo(1); }\n', False),
+    ('member_assignment.inaccessible_field_rejected', PRE + HOLDER % '' + 'function main() -> void { H h = new H(); h.secret = 1; echo(1); }\n', False),
+    ('member_assignment.instance_field_not_assigned_via_type', PRE + HOLDER % '' + 'function main() -> void { H.n = 1; echo(1); }\n', False),
+    ('member_assignment.instance_field_not_assigned_via_type', PRE + HOLDER % '' + 'function main() -> void { H.sn = 1; echo(H.sn); }\n', True),
+    ('member_assignment.final_field_only_through_this_in_a_constructor', PRE + HOLDER % '' + 'function main() -> void { H h = new H(); h.fx = 2; echo(1); }\n', False),
+    ('member_assignment.final_field_only_through_this_in_a_constructor', PRE + HOLDER % 'public constructor(H other) -> H { other.fx = 5; this.n = 0; this.a = new A(); this.secret = 1; return this; }' + 'function main() -> void { H h = new H(); H k = new H(h); echo(h.fx); }\n', False),
+    ('member_assignment.final_field_only_through_this_in_a_constructor', PRE + HOLDER % 'public function poke() -> void { this.fx = 9; }' + 'function main() -> void { H h = new H(); h.poke(); echo(1); }\n', False),
+    ('recordFinalFieldAssignment.final_exactly_once_per_constructor', PRE + HOLDER % 'public constructor(int v) -> H { this.fx = v; this.fx = v; this.n = 0; this.a = new A(); this.secret = 1; return this; }' + 'function main() -> void { H h = new H(3); echo(1); }\n', False),
+    ('recordFinalFieldAssignment.final_only_in_own_constructor_at_top_level', PRE + HOLDER % 'public constructor(boolean c) -> H { if (c) { this.fx = 2; } this.n = 0; this.a = new A(); this.secret = 1; return this; }' + 'function main() -> void { H h = new H(true); echo(1); }\n', False),
+    ('recordFinalFieldAssignment.first_top_level_assignment_accepted', PRE + HOLDER % '' + 'function main() -> void { H h = new H(); echo(h.fx); }\n', True),
+    ('resolveField.inaccessible_field_rejected', PRE + HOLDER % '' + 'class D extends H { public constructor() -> D { super(); return this; } public function leak() -> void { secret = 2; } }\nfunction main() -> void { D d = new D(); d.leak(); echo(1); }\n', False),
+    ('resolveField.instance_field_in_static_context_rejected', PRE + HOLDER % 'public static function st() -> void { n = 3; }' + 'function main() -> void { H.st(); echo(1); }\n', False),
 ]
 def run(bloch, src):
     d = tempfile.mkdtemp(prefix='semk_'); p = os.path.join(d, 'p.bloch'); open(p, 'w').write(src)
@@ -33,16 +77,16 @@ def run(bloch, src):
         import shutil; shutil.rmtree(d, ignore_errors=True)
 def main():
     bloch = sys.argv[1]; fails = 0
-    for label, body, ok in CASES:
-        src = PRE + 'function main() -> void { %s }\n' % body
+    for label, body, ok in CASES + FULL:
+        src = body if body.startswith(PRE[:20]) else PRE + 'function main() -> void { %s }\n' % body
         rc, out = run(bloch, src)
         rejected = 'Semantic error' in out
         if rc < 0 or rc >= 128:
-            fails += 1; print('FAIL label=%s program=%s detail=crashed with status %d' % (label, json.dumps(body), rc))
+            fails += 1; print('FAIL label=%s program=%s detail=crashed with status %d' % (label, json.dumps(body[len(PRE):] if body.startswith(PRE[:20]) else body), rc))
         elif ok and rejected:
-            fails += 1; print('FAIL label=%s program=%s detail=rejected although the value has a compatible type: %s' % (label, json.dumps(body), out.strip()[-80:]))
+            fails += 1; print('FAIL label=%s program=%s detail=rejected although the value has a compatible type: %s' % (label, json.dumps(body[len(PRE):] if body.startswith(PRE[:20]) else body), out.strip()[-80:]))
         elif not ok and not rejected:
-            fails += 1; print('FAIL label=%s program=%s detail=accepted although the value has an incompatible known type (output: %s)' % (label, json.dumps(body), out.strip()[-40:]))
-    print(json.dumps(dict(oracle_checks=len(CASES), oracle_failures=fails)))
+            fails += 1; print('FAIL label=%s program=%s detail=accepted although the value has an incompatible known type (output: %s)' % (label, json.dumps(body[len(PRE):] if body.startswith(PRE[:20]) else body), out.strip()[-40:]))
+    print(json.dumps(dict(oracle_checks=len(CASES) + len(FULL), oracle_failures=fails)))
     sys.exit(1 if fails else 0)
 main()
